@@ -1660,7 +1660,8 @@ int EGLPNUM_TYPENAME_ILLlib_delcols (
 
 	for (i = 0; i < num; i++)
 	{
-		if (dellist[i] < 0 || dellist[i] >= ncols) {
+		/* dellist holds structural indices, not internal column numbers */
+		if (dellist[i] < 0 || dellist[i] >= qslp->nstruct) {
 			rval = 1;
 			ILL_CLEANUP;
 		}
